@@ -47,7 +47,7 @@ def call_sites(ctx, P, views, iters):
             if not any(isinstance(x, ast.Call) and call_name(x) == "decide_preempt" for x in ast.walk(fn)):
                 continue
             w = Walker(P, view, keep=lambda e: e.kind == "guard" or (e.kind == "call" and e.d["meth"] in ("decide_preempt", "find_free_server", "change_priority_queue")),
-                       track=lambda t, f: True, inline=lambda ev: False, loop_iters=iters)
+                       track=lambda t, f: True, inline=rules.new_helper, loop_iters=iters)
             for st in w.paths_of(cls, fn):
                 for i, e in enumerate(st.events):
                     if e.kind != "call" or e.d["meth"] != "decide_preempt":
@@ -170,7 +170,7 @@ def orderings(ctx, P, views, iters):
                 if e.kind == "assign" and not e.d.get("local"):
                     return e.d["target"].startswith(tok + ".")
                 return e.kind == "call" and e.d["meth"] in ("write_interruption_record", "detatch_server", "reroute")
-            w = Walker(P, view, keep=keep, inline=lambda ev: False, loop_iters=iters)
+            w = Walker(P, view, keep=keep, inline=rules.new_helper, loop_iters=iters)
             for st in w.paths_of(cls, fn):
                 if st.status == "raise":
                     continue
@@ -243,13 +243,13 @@ def options(ctx, P, views):
     handled = set()
     for view in views:
         cls, fn = view.method("give_service_time_after_preemption")
-        for x in ast.walk(fn):
+        for x in rules.walk(P, view, fn):
             if isinstance(x, ast.Compare) and isinstance(x.ops[0], ast.Eq) and isinstance(x.comparators[0], ast.Constant) and unparse(x.left).endswith(".service_time"):
                 handled.add(x.comparators[0].value)
         for m in ("preempt", "interrupt_service"):
             cls, fn = view.method(m)
             ok = False
-            for x in ast.walk(fn):
+            for x in rules.walk(P, view, fn):
                 if isinstance(x, ast.Compare) and isinstance(x.ops[0], ast.Eq) and isinstance(x.comparators[0], ast.Constant) and x.comparators[0].value == "reroute":
                     ok = True
             ob.ok("%s.%s:reroute-branch" % (view.name, m))
@@ -268,7 +268,7 @@ def options(ctx, P, views):
         cls, fn = view.method("give_service_time_after_preemption")
         tok = fn.args.args[1].arg
         want = {"resample": "self.get_service_time(%s)" % tok, "restart": "%s.original_service_time" % tok, "resume": "%s.time_left" % tok}
-        for x in ast.walk(fn):
+        for x in rules.walk(P, view, fn):
             if isinstance(x, ast.If) and isinstance(x.test, ast.Compare) and isinstance(x.test.comparators[0], ast.Constant):
                 o = x.test.comparators[0].value
                 asg = [s for s in x.body if isinstance(s, ast.Assign)]
